@@ -245,6 +245,10 @@ func ConstantValue(n *Node, m Mode, fold bool, defs Defs) (val string, ok, murky
 		return strings.Join(parts, ""), true, murky
 	case KFold:
 		return ConstantValue(n.Sub[0], m, n.On, defs)
+	case KRep:
+		if n.Max == 0 {
+			return "", true, false // x{0}: nothing at all
+		}
 	}
 	return "", false, false
 }
